@@ -17,7 +17,51 @@
  */
 #ifndef VERIF_ASSUMED_BPPP_H
 #define VERIF_ASSUMED_BPPP_H
-#include "assumed.h"
+
+#ifdef BP_SCALAR_FRAME
+/* "Frame only" scalar oracles for C19.verify_gate.  The s_g / s_h loops of the norm-argument verifier
+ * read an EARLIER element of the array they fill (s_g[i - 2^log i]); under a loop contract that element
+ * is havocked, and "every earlier element is < n" cannot be carried without a quantified invariant
+ * (not used in this framework).  The unit therefore uses oracles WITHOUT the representation
+ * precondition scalar_ok(a), scalar_ok(b): the assumption is that the real secp256k1_scalar_mul / _sqr /
+ * _inverse_var are memory-safe for every limb pattern (they are straight-line uint64/uint128
+ * arithmetic; C05 scalar units).  Every pointer handed to them is still checked (r_ok / w_ok in the
+ * requires clause = the index-safety obligations of the loops).  The representation flow (every
+ * operand really is < n) is checked by the bounded unit C19.verify_b8, which uses the standard
+ * contracts of assumed.h.  This block replaces assumed.h (same helper names). */
+# include "pre.h"
+# define VERIF_ASSUMED_H
+# define FE_EQ(x, y) ((x).n[0] == (y).n[0] && (x).n[1] == (y).n[1] && (x).n[2] == (y).n[2] && (x).n[3] == (y).n[3] && (x).n[4] == (y).n[4])
+# define FE_EQ_OLD(x, y) ((x).n[0] == __CPROVER_old((y).n[0]) && (x).n[1] == __CPROVER_old((y).n[1]) && (x).n[2] == __CPROVER_old((y).n[2]) && (x).n[3] == __CPROVER_old((y).n[3]) && (x).n[4] == __CPROVER_old((y).n[4]))
+static inline int ge_ok(const secp256k1_ge *g) { return fe_mag(&g->x, 4) && fe_mag(&g->y, 3) && (g->infinity == 0 || g->infinity == 1); }
+static inline int ge_ok1(const secp256k1_ge *g) { return fe_mag(&g->x, 1) && fe_mag(&g->y, 1) && (g->infinity == 0 || g->infinity == 1); }
+static inline int gej_ok(const secp256k1_gej *g) { return fe_mag(&g->x, 4) && fe_mag(&g->y, 4) && fe_mag(&g->z, 1) && (g->infinity == 0 || g->infinity == 1); }
+static void secp256k1_scalar_mul(secp256k1_scalar *r, const secp256k1_scalar *a, const secp256k1_scalar *b)
+__CPROVER_requires(__CPROVER_w_ok(r, sizeof(*r)) && __CPROVER_r_ok(a, sizeof(*a)) && __CPROVER_r_ok(b, sizeof(*b)))
+__CPROVER_assigns(*r)
+__CPROVER_ensures(scalar_ok(r))
+;
+static void secp256k1_scalar_sqr(secp256k1_scalar *r, const secp256k1_scalar *a)
+__CPROVER_requires(__CPROVER_w_ok(r, sizeof(*r)) && __CPROVER_r_ok(a, sizeof(*a)))
+__CPROVER_assigns(*r)
+__CPROVER_ensures(scalar_ok(r))
+;
+static void secp256k1_scalar_inverse_var(secp256k1_scalar *r, const secp256k1_scalar *x)
+__CPROVER_requires(__CPROVER_w_ok(r, sizeof(*r)) && __CPROVER_r_ok(x, sizeof(*x)))
+__CPROVER_assigns(*r)
+__CPROVER_ensures(scalar_ok(r))
+;
+#else
+# include "assumed.h"
+/* squaring is not in assumed.h: same oracle shape as secp256k1_scalar_mul there */
+# ifdef BP_SCALAR_SQR
+static void secp256k1_scalar_sqr(secp256k1_scalar *r, const secp256k1_scalar *a)
+__CPROVER_requires(__CPROVER_w_ok(r, sizeof(*r)) && __CPROVER_r_ok(a, sizeof(*a)) && scalar_ok(a))
+__CPROVER_assigns(*r)
+__CPROVER_ensures(scalar_ok(r))
+;
+# endif
+#endif
 
 /* ---- memset with a symbolic length (scratch_alloc, generators_serialize): CBMC's built-in model costs
  * minutes on a symbolic-size object; replaced by a contract in the style of the memcpy contract of
@@ -76,10 +120,12 @@ __CPROVER_ensures(__CPROVER_old(g_pp_n) != 0 ==> (g_pp_size0 == __CPROVER_old(g_
 
 /* ---- Jacobian equality (field multiplications inside): oracle ---- */
 #ifdef BP_GEJ_EQ
+int g_geq_n, g_geq_v;    /* number of calls, last verdict */
 static int secp256k1_gej_eq_var(const secp256k1_gej *a, const secp256k1_gej *b)
 __CPROVER_requires(__CPROVER_r_ok(a, sizeof(*a)) && __CPROVER_r_ok(b, sizeof(*b)) && gej_ok(a) && gej_ok(b))
-__CPROVER_assigns()
+__CPROVER_assigns(g_geq_n, g_geq_v)
 __CPROVER_ensures(__CPROVER_return_value == 0 || __CPROVER_return_value == 1)
+__CPROVER_ensures(g_geq_n == __CPROVER_old(g_geq_n) + 1 && g_geq_v == __CPROVER_return_value)
 ;
 #endif
 
